@@ -1,1 +1,161 @@
+(* C18 — table obligations: facts about the source as extracted into Tables.v on
+   this run, each discharged by closed computation, and the lemmas of
+   ViaProofs.v instantiated with them.  When the source changes shape exactly
+   the obligation naming that shape stops checking. *)
+From G01 Require Import Via ViaCheck ViaProofs.
 
+Lemma ob_via_reads_all_lines : via_reads_all_lines = true.
+Proof. vm_compute. reflexivity. Qed.
+Lemma ob_via_loop_status : via_loop_status = 400.
+Proof. vm_compute. reflexivity. Qed.
+Lemma ob_via_sets_close : via_sets_close = true.
+Proof. vm_compute. reflexivity. Qed.
+Lemma ob_via_join_sep : via_join_sep = comma_sp.
+Proof. vm_compute. reflexivity. Qed.
+Lemma ob_via_tag_sep : via_tag_sep = [45].
+Proof. vm_compute. reflexivity. Qed.
+(* the protocol arms print major.minor for every version net/http can parse (0.0 .. 9.9) *)
+Lemma ob_proto_table : proto_table_ok = true.
+Proof. vm_compute. reflexivity. Qed.
+(* the instance boundary carries at least 80 random bits, hex encoded *)
+Lemma ob_boundary_bits : 80 <= via_boundary_bytes * 8.
+Proof. vm_compute. discriminate. Qed.
+(* errorResponse consults handleMartianErrorStatus *)
+Lemma ob_status_handler_listed : In (b "handleMartianErrorStatus") error_handlers.
+Proof. vm_compute. tauto. Qed.
+(* proxyConn.handle / handleConnectRequest: an error from modifyRequest returns the error response before roundTrip / Connect *)
+Lemma ob_error_returns_before_roundtrip : modify_error_returns_before_roundtrip = true.
+Proof. vm_compute. reflexivity. Qed.
+Lemma ob_error_returns_before_connect : modify_error_returns_before_connect = true.
+Proof. vm_compute. reflexivity. Qed.
+(* the Via modifier is part of the request stack *)
+Lemma ob_via_in_stack : In (b "NewViaModifier") stack_request_order.
+Proof. vm_compute. tauto. Qed.
+
+(* ---------- consequences ---------- *)
+Lemma via_modify_fixed : via_modify = via_modify_gen true.
+Proof. unfold via_modify. rewrite ob_via_reads_all_lines. reflexivity. Qed.
+
+Lemma status_400 : status_of_error_status via_loop_status = 400.
+Proof.
+  rewrite ob_via_loop_status. unfold status_of_error_status.
+  apply first_nonzero_status; [discriminate | exact ob_status_handler_listed].
+Qed.
+
+Lemma refused_is_answered_400 cl : exchange_of (ViaRefused 400 cl) = Answered 400.
+Proof.
+  unfold exchange_of. rewrite ob_error_returns_before_roundtrip.
+  pose proof status_400 as H. rewrite ob_via_loop_status in H. rewrite H. reflexivity.
+Qed.
+
+Lemma f_detects_own tag maj min h l :
+  tag <> [] -> In l (h_values via_key h) -> contains l tag = true ->
+  via_modify tag maj min h = ViaRefused 400 true /\ exchange_of (via_modify tag maj min h) = Answered 400.
+Proof.
+  intros A B C. rewrite via_modify_fixed.
+  rewrite (detects_own 400 true ob_via_loop_status ob_via_sets_close tag maj min h l A B C).
+  split; [reflexivity | apply refused_is_answered_400].
+Qed.
+
+Lemma f_detects_own_element tag maj min h :
+  tag <> [] -> own_elem tag (h_values via_key h) = true ->
+  via_modify tag maj min h = ViaRefused 400 true /\ exchange_of (via_modify tag maj min h) = Answered 400.
+Proof.
+  intros A B. apply own_elem_sub in B; [|exact A]. apply own_sub_spec in B as [l [Hin Hi]].
+  apply (f_detects_own tag maj min h l A Hin). apply contains_spec. exact Hi.
+Qed.
+
+Lemma f_appends tag maj min h h' :
+  tag_ok tag = true -> maj < 10 -> min < 10 -> via_modify tag maj min h = ViaOk h' ->
+  exists v, h_values via_key h' = [v] /\
+            chain [v] = chain (h_values via_key h) ++ [elem tag maj min] /\
+            (forall k, k <> via_key -> raw_get k h' = raw_get k h).
+Proof.
+  intros Ht Hm Hn H. rewrite via_modify_fixed in H.
+  destruct (proto_table maj min ob_proto_table Hm Hn) as [Hpe Hp].
+  pose proof (model_satisfies_prop 400 true ob_via_loop_status ob_via_sets_close ob_via_join_sep
+                tag maj min h eq_refl eq_refl Ht Hp Hpe) as Hok.
+  rewrite H in Hok. apply via_prop_ok_sound in Hok. destruct Hok as [_ [Hch Hoth]].
+  rewrite <- Hpe in Hp.
+  destruct (appends_after_existing 400 true ob_via_loop_status ob_via_sets_close ob_via_join_sep
+              tag maj min h h' Ht Hp H) as [v [Hv _]].
+  exists v. split; [exact Hv|]. split; [rewrite <- Hv; exact Hch | exact Hoth].
+Qed.
+
+Lemma f_self_loop tag maj min h h' maj' min' :
+  via_modify tag maj min h = ViaOk h' ->
+  via_modify tag maj' min' h' = ViaRefused 400 true /\ exchange_of (via_modify tag maj' min' h') = Answered 400.
+Proof.
+  intro H. rewrite via_modify_fixed in *.
+  rewrite (self_loop 400 true ob_via_loop_status ob_via_sets_close tag maj min h h' maj' min' H).
+  split; [reflexivity | apply refused_is_answered_400].
+Qed.
+
+Lemma f_two_proxy_loop tag maj min h h' (B : list str -> list str) h'' maj' min' :
+  tag <> [] ->
+  (forall ls, own_sub tag ls = true -> own_sub tag (B ls) = true) ->
+  via_modify tag maj min h = ViaOk h' ->
+  h_values via_key h'' = B (h_values via_key h') ->
+  via_modify tag maj' min' h'' = ViaRefused 400 true /\ exchange_of (via_modify tag maj' min' h'') = Answered 400.
+Proof.
+  intros A HB H HB2. rewrite via_modify_fixed in *.
+  rewrite (two_proxy_loop 400 true ob_via_loop_status ob_via_sets_close tag maj min h h' B h'' maj' min' A HB H HB2).
+  split; [reflexivity | apply refused_is_answered_400].
+Qed.
+
+Lemma f_hops_keep_tag tag :
+  (forall tag' maj min h h', via_modify tag' maj min h = ViaOk h' ->
+      own_sub tag (h_values via_key h) = true -> own_sub tag (h_values via_key h') = true) /\
+  (forall ls, own_sub tag ls = true -> own_sub tag [join comma_sp ls] = true) /\
+  (~ In 44 tag -> forall ls, own_sub tag ls = true -> own_sub tag (flat_map (split_byte 44) ls) = true).
+Proof.
+  split; [|split].
+  - intros tag' maj min h h' H. rewrite via_modify_fixed in H.
+    exact (hop_keeps tag tag' maj min h h' H).
+  - exact (merge_keeps tag).
+  - intros H ls. exact (split_keeps tag ls H).
+Qed.
+
+Lemma f_foreign_forwarded tag maj min h :
+  tag_ok tag = true -> own_sub tag (h_values via_key h) = false ->
+  exists h', via_modify tag maj min h = ViaOk h' /\ exchange_of (via_modify tag maj min h) = ForwardedOn h'.
+Proof.
+  intros A B. rewrite via_modify_fixed.
+  rewrite (foreign_forwarded ob_via_join_sep tag maj min h A B).
+  eexists. split; reflexivity.
+Qed.
+
+Lemma f_model_satisfies_oracle tag maj min h :
+  tag_ok tag = true -> maj < 10 -> min < 10 ->
+  via_prop_ok tag maj min h (via_modify tag maj min h) = true.
+Proof.
+  intros Ht Hm Hn. rewrite via_modify_fixed.
+  destruct (proto_table maj min ob_proto_table Hm Hn) as [Hpe Hp].
+  exact (model_satisfies_prop 400 true ob_via_loop_status ob_via_sets_close ob_via_join_sep
+           tag maj min h eq_refl eq_refl Ht Hp Hpe).
+Qed.
+
+(* the shape the source had before the repair (first field line only) violates both clauses *)
+Lemma legacy_shape_refuted :
+  exists tag h h',
+    tag_ok tag = true /\ own_elem tag (h_values via_key h) = true /\
+    via_modify_gen false tag 1 1 h = ViaOk h' /\
+    chain (h_values via_key h') <> chain (h_values via_key h) ++ [elem tag 1 1].
+Proof.
+  exists (b "fwd-00112233445566778899"),
+         [(via_key, [b "1.1 alpha"; b "1.1 fwd-00112233445566778899"])].
+  eexists. split; [reflexivity|]. split; [reflexivity|]. split; [reflexivity|].
+  vm_compute. discriminate.
+Qed.
+
+(* ... and an intermediate hop of that shape loses the first proxy's element, so A->B->A is not caught by A *)
+Lemma legacy_hop_loses_tag :
+  exists tag tag' h h',
+    own_sub tag (h_values via_key h) = true /\
+    via_modify_gen false tag' 1 1 h = ViaOk h' /\
+    own_sub tag (h_values via_key h') = false.
+Proof.
+  exists (b "fwd-00112233445566778899"), (b "b-ffeeddccbbaa99887766"),
+         [(via_key, [b "1.1 alpha"; b "1.1 fwd-00112233445566778899"])].
+  eexists. split; [reflexivity|]. split; reflexivity.
+Qed.
